@@ -356,3 +356,5 @@ def _interval_history(env, cfg, ctx):
 
 
 META['explanation'] += ' Further groups: a storage object handed to the constructor is the explained window; fresh IntervalSage over 5-7 real calls under every pattern of forced calls.'
+
+META['explanation'] += ' End-to-end runs also with a storage the user built with its default arguments.'
